@@ -829,7 +829,7 @@ pub fn run_c17cli(ctx: &mut Ctx, from: u64, to: u64) {
         ctx.begin_case(k);
         let mut rng = Rng::new(case_seed(ctx.seed, "C17cli", k));
         let (mut spec, _texts) = vgen::kytea::gen_spec(&mut rng);
-        if spec.char_ngrams.is_empty() || spec.type_ngrams.is_empty() {
+        if (spec.char_ngrams.is_empty() || spec.type_ngrams.is_empty()) && !spec.empty_tries_present {
             // rejected by design (see C17): nothing to convert
             ctx.count("specs_skipped_without_ngram_sections", 1);
             continue;
@@ -903,5 +903,55 @@ pub fn run_c17cli(ctx: &mut Ctx, from: u64, to: u64) {
             ),
             None => ctx.violation("C17:convert_tool_output_missing_or_not_zstd", detail(vec![])),
         }
+    }
+}
+
+// ------------------------------------------------------------------------------------------ C07 (tools)
+
+/// A model-writing tool whose output device fails (every write to /dev/full returns ENOSPC) must
+/// report the failure through its exit status: a success status would stand for a model file that
+/// was never (completely) written.
+pub fn run_c07cli(ctx: &mut Ctx, from: u64, to: u64) {
+    if !std::path::Path::new("/dev/full").exists() {
+        ctx.count("skipped_no_dev_full", 1);
+        return;
+    }
+    for k in from..to {
+        ctx.begin_case(k);
+        let mut rng = Rng::new(case_seed(ctx.seed, "C07cli", k));
+        let mut o = GenOpts::default();
+        o.max_text_len = 30;
+        o.max_window = 4;
+        o.tags = TagMode::Maybe;
+        let case = gen_case(&mut rng, &o);
+        let m_in = scratch(ctx, "full-in.zst");
+        write_zst(&m_in, &case.model.to_bytes());
+        let mut runs: Vec<(&str, Vec<String>)> = vec![];
+        runs.push(("manipulate_model", vec!["--model-in".into(), m_in.clone(), "--model-out".into(), "/dev/full".into()]));
+        if k % 3 == 0 {
+            runs.push(("convert_kytea_model", vec!["--model-in".into(), "/repo/resources/kytea-model.bin".into(), "--model-out".into(), "/dev/full".into()]));
+        }
+        if k % 3 == 1 {
+            let cpath = scratch(ctx, "full-corpus.txt");
+            std::fs::write(&cpath, "まぁ/名詞 社長/名詞 は/助詞 火星/名詞 猫/名詞 だ/助動詞\nあ い う\n").unwrap();
+            runs.push(("train", vec!["--tok".into(), cpath, "--model".into(), "/dev/full".into()]));
+        }
+        for (tool, args) in runs {
+            let r = match run_bin(ctx, tool, &args, b"") {
+                Ok(r) => r,
+                Err(e) => panic!("HARNESS: {e}"),
+            };
+            ctx.eval(1);
+            ctx.count(&format!("runs_with_failing_output_device:{tool}"), 1);
+            if r.code == Some(0) {
+                ctx.violation(
+                    &format!("C07:tool_reports_success_although_model_could_not_be_written:{tool}"),
+                    J::obj(vec![("args", J::strs(&args)), ("run", J::s(r.describe()))]),
+                );
+            } else if r.signal.is_some() {
+                ctx.violation(&format!("C07:tool_killed_by_signal_on_failing_output:{tool}"), J::obj(vec![("args", J::strs(&args)), ("run", J::s(r.describe()))]));
+            }
+        }
+        ctx.nontrivial(fnv(&case.model.to_bytes()));
     }
 }
